@@ -267,13 +267,14 @@ Section Alg.
          if is_nil x then acc else
          let '(sb, oid) := if nth input_id (s_map sa) (-1) =? -1 then record_node sa input_id
                            else (sa, nth input_id (s_map sa) (-1)) in
-         let y' := match y with Some yy => Some (Z.min yy (out_time sb oid)) | None => Some (out_time sb oid) end in
          let '(sc, b) := fold_left (fun (ab : st * buffer) (sg : seg) =>
                             let '(sx, bb) := ab in
                             if seg_n sg =? oid then ab
                             else (map_mutations sx input_id (seg_l sg) (seg_r sg) oid,
                                   record_edge bb (seg_l sg) (seg_r sg) (seg_n sg))) x (sb, []) in
-         (fst (flush_edges sc oid b), y'))
+         let '(sd, n) := flush_edges sc oid b in
+         if o_fn o && (nth input_id (s_map sa) (-1) =? -1) && Nat.eqb n 0 then (rewind_node sd input_id oid, y)
+         else (sd, match y with Some yy => Some (Z.min yy (out_time sd oid)) | None => Some (out_time sd oid) end))
         (seq 0 (length (t_nodes t))) (s, None) in
     match youngest with
     | None => s'
